@@ -252,6 +252,7 @@ let parse_wscript t : wev list =
      script that is q polls accepting one octet each (C09_write_fault: the outcome is the same) *)
   List.concat (parse_list t (fun t -> match next t with
     | "p" -> [WPending] | "x" -> [WErr]
+    | "i" -> [WErr]      (* an interrupted write: tokio's write_all reports it as the error it is *)
     | s when String.length s >= 2 && String.sub s 0 2 = "t:" -> [WPending]
     | s when String.length s >= 2 && String.sub s 0 2 = "a:" -> [WAccept (n_of_hex (String.sub s 2 (String.length s - 2)))]
     | s when String.length s >= 2 && String.sub s 0 2 = "b:" ->
@@ -366,7 +367,7 @@ let handle (line : string) : string =
         | Err -> Buffer.add_string b "R err"
         | Panic -> Buffer.add_string b "PANIC"
         | OutOfFuel -> Buffer.add_string b "OUTOFFUEL")
-   | "SD" ->
+   | "SD" | "SDN" ->
        let ds = get_dict (next t) in
        let k = next_int t in
        let rs = parse_rscript t in
@@ -624,7 +625,7 @@ let handle (line : string) : string =
         | Err -> Buffer.add_string b "ERR"
         | Panic -> Buffer.add_string b "PANIC"
         | OutOfFuel -> Buffer.add_string b "OUTOFFUEL")
-   | "POISON" -> Buffer.add_string b "OK"
+   | "POISON" | "TLDROP" -> Buffer.add_string b "OK"
    | "XM" ->
        (* frames back to back in one reader, each decoded from where it starts: the observation is that of the last
           (or of the first one that is refused) *)
